@@ -94,11 +94,34 @@ func init() {
 		}
 		return StrConst(fmt.Sprint(parts...))
 	}
-	for _, n := range []string{"fmt.Printf", "fmt.Println", "fmt.Print", "fmt.Fprintf", "fmt.Fprintln", "fmt.Fprint"} {
+	for _, n := range []string{"fmt.Fprintf", "fmt.Fprintln", "fmt.Fprint"} {
 		intrinsics[n] = func(ex *Exec, fn *ssa.Function, args []Value) Value {
 			return TupleV{BVConst(0, 64), IfaceV{}}
 		}
 	}
+	// standard output is captured (verifCaptureStdout) rather than printed
+	intrinsics["fmt.Printf"] = func(ex *Exec, fn *ssa.Function, args []Value) Value {
+		out := ex.sprintf(args[0], args[1])
+		ex.stdout += out
+		return TupleV{BVConst(uint64(len(out)), 64), IfaceV{}}
+	}
+	printLn := func(newline bool) intrinsic {
+		return func(ex *Exec, fn *ssa.Function, args []Value) Value {
+			sv := args[0].(SliceV)
+			var parts []interface{}
+			for k := 0; k < sv.Len; k++ {
+				parts = append(parts, ex.toFmtArg(sv.A.E[sv.Off+k].V))
+			}
+			out := fmt.Sprint(parts...)
+			if newline {
+				out = fmt.Sprintln(parts...)
+			}
+			ex.stdout += out
+			return TupleV{BVConst(uint64(len(out)), 64), IfaceV{}}
+		}
+	}
+	intrinsics["fmt.Println"] = printLn(true)
+	intrinsics["fmt.Print"] = printLn(false)
 	// --- sort
 	intrinsics["sort.Slice"] = sortSliceIntrinsic
 	intrinsics["sort.SliceStable"] = sortSliceIntrinsic
